@@ -35,7 +35,7 @@ if os.path.exists(_kf):
 COMMON_ASSUMPTIONS = ["A1", "A6", "A7"]
 
 _TB = ["z3 SMT solver (cvc5 for string queries z3 leaves open)", "pyvc VC generator (/verif/pyvc)", "CPython ast module"]
-from .bounded import query_enum_check, roundtrip_check, gc_check  # noqa: E402
+from .bounded import query_enum_check, roundtrip_check, gc_check, roles_check  # noqa: E402
 from .census import census_check  # noqa: E402
 
 _TBB = ["CPython executing the real functions", "in-memory lmdb/msgpack stand-ins (/verif/stubs)", "sqlite3", "the NIP-01 oracle in /verif/bounded/query_enum.py"]
@@ -57,8 +57,8 @@ PROPERTIES = {
     "C13": {"level": "proof", "trusted_base": _TB, "assumptions": ["WS", "JSON", "A4"]},
     "C19": {"level": "proof", "trusted_base": _TB, "assumptions": ["WS", "JSON", "A4"]},
     "C15": {"level": "proof", "trusted_base": ["z3 SMT solver", "pyvc VC generator (/verif/pyvc)", "CPython ast module"], "assumptions": ["A3", "EV"]},
-    "C14": {"level": "proof", "trusted_base": ["z3 SMT solver", "pyvc VC generator (/verif/pyvc)", "CPython ast module"], "assumptions": ["EV"],
-            "extra_checks": [census_check("C14")]},
+    "C14": {"level": "proof", "trusted_base": ["z3 SMT solver", "pyvc VC generator (/verif/pyvc)", "CPython ast module"], "assumptions": ["EV", "ROLES"],
+            "extra_checks": [census_check("C14"), roles_check("C14")]},
     "C16": {
         "level": "proof",
         "trusted_base": ["z3 SMT solver", "pyvc VC generator (/verif/pyvc)", "CPython ast module"],
@@ -145,6 +145,15 @@ def replay(prop, path):
         if bad:
             print("VIOLATION property=%s replay=%s" % (prop, path))
         return 1 if bad else 0
+    if rp["unit"] == "bounded:role-storage-roundtrip":
+        env = dict(os.environ)
+        env["PYTHONPATH"] = ROOT
+        p = subprocess.run([sys.executable, os.path.join(ROOT, "bounded", "roles_enum.py")], env=env, capture_output=True, text=True)
+        print(p.stdout[-2000:])
+        if "FAIL " in p.stdout:
+            print("VIOLATION property=%s replay=%s" % (prop, path))
+            return 1
+        return 0
     if rp["unit"] == "bounded:store-and-serve-roundtrip":
         env = dict(os.environ)
         env["PYTHONPATH"] = ROOT
